@@ -3,11 +3,11 @@
 package main
 
 func main() {
-	done := make(chan int, 12)
-	for k := 0; k < 12; k++ {
+	done := make(chan int, 13)
+	for k := 0; k < 13; k++ {
 		go runScenario(k, done)
 	}
-	for k := 0; k < 12; k++ {
+	for k := 0; k < 13; k++ {
 		<-done
 	}
 	println("END")
